@@ -1,8 +1,10 @@
 package main
 
 import (
+	"encoding/json"
 	"fmt"
 	"os"
+	"os/exec"
 	"path/filepath"
 	"strings"
 	"time"
@@ -38,6 +40,9 @@ type spec struct {
 	Prepare        func(sc *scratch, env []string) error
 	Custom         func(sp *spec, tier string, seed uint64) int
 	Replay         func(sp *spec, path string) int
+	// Post runs after the exploration (same scratch tree); it returns extra
+	// coverage keys for the evidence and descriptions of violations it found.
+	Post func(sc *scratch, sp *spec, tier string, seed uint64) (map[string]interface{}, []string)
 }
 
 func (s *spec) maxSteps(tier string) int {
@@ -178,9 +183,64 @@ func init() {
 		TestPkg:    "cmd/internal/gopfmt", TestName: "TestZSimC26",
 		QuickRuns: 3000, ThoroughRuns: 300000, QuickBudget: 4 * time.Minute, ThoroughBudget: 40 * time.Minute,
 		Chunk: 190,
+		Post:  c26StraceFidelity,
 		Rule: "each run draws a module directory with 1-5 files (.xgo/.gop/.go/.gox; unformatted, already formatted or syntactically invalid; modes 0644/0600/0664/0640/0755/0444; optionally in a sub-directory), an invocation (file arguments, directory, dir/...) x (plain, --smart, --smart -mvgo, -t, -n) and whether one file-system operation fails (ENOSPC with a short write, EIO, EACCES, EMFILE, EPERM at a seeded operation). A reference run without faults gives the expected formatted content; then EVERY crash point of the judged run is evaluated (before the first mutating operation, after each one, and inside writes at a seeded split). Non-trivial = the run rewrites at least one file; distinct = distinct (operation-log hash, workload hash) pairs",
 		Real: []string{"cmd/internal/gopfmt/fmt.go (flag parsing, walker, gopfmt, writeFileWithBackup, report) compiled from the working tree", "the real formatter, parser and module loader", "a real directory on tmpfs: every operation is forwarded to the kernel"},
 		Stubbed: []string{"package os as seen by fmt.go (simos: op log, crash-point hooks, error injection, os.Exit as a recoverable panic)", "process kill: modelled as 'completed system calls survive, nothing else happens' and evaluated by inspecting the directory at each point instead of killing and restarting"},
 		Assumptions: []string{"process-crash model (SIGKILL), not power loss: no fsync/ordering semantics are assumed", "the formatter's output for a file is what an undisturbed run of the same command produces", "rename(2) over an existing file is atomic"},
 	})
+}
+
+// c26StraceFidelity (thorough tier only) builds the real xgo binary from the
+// scratch tree and kills it with SIGKILL at every file-system system call of a
+// formatting run for a set of workloads (strace fault injection).
+func c26StraceFidelity(sc *scratch, sp *spec, tier string, seed uint64) (map[string]interface{}, []string) {
+	if tier != "thorough" && os.Getenv("VERIF_C26_STRACE") == "" {
+		return nil, nil
+	}
+	if _, err := exec.LookPath("strace"); err != nil {
+		return map[string]interface{}{"strace_fidelity": "skipped: strace not found"}, nil
+	}
+	bin := filepath.Join(sc.dir, "xgo-real")
+	if out, err := run(sc.repo, goEnv(), "go1.26.8", "build", "-o", bin, "./cmd/xgo"); err != nil {
+		infra("building cmd/xgo for the strace fidelity pass: %v\n%s", err, tail(out, 3000))
+	}
+	outFile := filepath.Join(sc.dir, "strace-out.json")
+	cmd := exec.Command(sc.bin, "-test.run", "^TestZSimC26Strace$", "-test.timeout", "0")
+	cmd.Dir = filepath.Join(sc.repo, sp.TestPkg)
+	n := "48"
+	if tier == "thorough" {
+		n = "160"
+	}
+	cmd.Env = append(os.Environ(), "VERIF_XGO_BIN="+bin, "VERIF_STRACE_OUT="+outFile, "VERIF_SCRATCH="+sc.dir, "VERIF_STRACE_WORKLOADS="+n, fmt.Sprintf("VERIF_SEED=%d", seed))
+	if out, err := cmd.CombinedOutput(); err != nil {
+		infra("strace fidelity pass failed to run: %v\n%s", err, tail(string(out), 3000))
+	}
+	data, err := os.ReadFile(outFile)
+	if err != nil {
+		infra("strace fidelity pass wrote no result: %v", err)
+	}
+	var res struct {
+		Workloads  int      `json:"workloads"`
+		KillPoints int      `json:"kill_points"`
+		Rewrites   int      `json:"files_rewritten_in_reference_runs"`
+		Violations []string `json:"violations"`
+		Trouble    []string `json:"trouble"`
+		Sample     []string `json:"sample"`
+	}
+	if err := json.Unmarshal(data, &res); err != nil {
+		infra("strace fidelity result: %v", err)
+	}
+	if len(res.Trouble) > 0 {
+		infra("strace fidelity pass: %s", strings.Join(res.Trouble, "; "))
+	}
+	cov := map[string]interface{}{"strace_fidelity": map[string]interface{}{
+		"what":        "the real xgo binary built from the tree, SIGKILLed on entry of its k-th file-system system call for every k (strace -e inject=...:signal=SIGKILL:when=k), judged by the same oracle",
+		"workloads":   res.Workloads,
+		"kill_points": res.KillPoints,
+		"files_rewritten_in_reference_runs": res.Rewrites,
+		"sample":      res.Sample,
+	}}
+	fmt.Printf("%s strace fidelity: %d workloads, %d SIGKILL points on the real binary, %d violations\n", sp.ID, res.Workloads, res.KillPoints, len(res.Violations))
+	return cov, res.Violations
 }
